@@ -7,6 +7,7 @@ pub mod c02;
 pub mod ctlrun;
 pub mod c03;
 pub mod c04;
+pub mod c05;
 pub mod c08;
 pub mod c09;
 pub mod c11;
@@ -26,6 +27,10 @@ pub fn run(ctx: &mut Ctx) -> bool {
         "C02" => {
             ctx.rule = c02::RULE_C02.into();
             c02::run_c02(ctx)
+        }
+        "C05" => {
+            ctx.rule = c05::RULE.into();
+            c05::run(ctx)
         }
         "C08" => {
             ctx.rule = c08::RULE.into();
